@@ -80,6 +80,29 @@ def oracle(obs):
         fails.append(('environ-residue', 'environ of the lost transport still stored'))
     if not obs['other_client_ok']:
         fails.append(('other-client-affected', 'the other client of the namespace is no longer connected'))
+    if obs.get('stray_calls'):
+        fails.append(('stray-handler', 'disconnect handler ran for a session nobody ended: %r' % (obs['stray_calls'],)))
+    side = obs.get('side') or {}
+    if 'bystander_disconnect' in side:
+        b = side['bystander_disconnect']
+        if b['calls'] != ['api'] or b['still_connected'] or b['pending']:
+            fails.append(('bystander', 'disconnect() of the other client of the namespace: handler calls %r, still connected %r, '
+                          'pending %d' % (b['calls'], b['still_connected'], b['pending'])))
+    if 'bystander_refused' in side:
+        b = side['bystander_refused']
+        if [f[0] for f in b['frames']] != [4] or b['registered']:
+            fails.append(('bystander', 'refused CONNECT of another transport: frames %r, still registered %r'
+                          % (b['frames'], b['registered'])))
+    if 'event' in side:
+        e = side['event']
+        st = set(e['connected_before_each_step'])
+        dispatched = (e['handler_runs'], [a[1] for a in e['acks']])
+        if st == {False} and dispatched != (0, []):
+            fails.append(('event-while-disconnecting', 'EVENT from a session that was not connected at any point of its '
+                          'processing: handler ran %d times, ACK ids %r (required: dropped)' % dispatched))
+        if st == {True} and dispatched != (1, [7]):
+            fails.append(('event-lost', 'EVENT from a session connected throughout its processing: handler ran %d times, ACK ids %r'
+                          % dispatched))
     return fails
 
 
@@ -154,8 +177,22 @@ def nested_triple_configs():
     return out
 
 
+def side_configs(thorough):
+    """two terminating actions on one namespace + one concurrent operation that is not a terminating action
+    of the sid (explored modulo the declared independence; no further branching once two gate windows overlap)"""
+    out = []
+    pairs = list(SAME_NS_PAIRS) + ([('api', 'lost'), ('client', 'lost')] if thorough else [])
+    for a, b in pairs:
+        for sd in ('bystander_refused', 'bystander_disconnect', 'event'):
+            if sd == 'event' and 'lost' in (a, b):
+                continue
+            out.append({'actions': [a, b], 'others': False, 'side': [sd]})
+    return out
+
+
 def cfg_key(cfg, reduced=False):
     return '+'.join(cfg['actions']) + ('/shared-ns' if cfg['others'] else '') + \
+        ('/side:' + '+'.join(cfg['side']) if cfg.get('side') else '') + \
         ('/nested' if cfg.get('nested') else '') + ('/reduced' if reduced else '')
 
 
@@ -173,7 +210,7 @@ def judge(ctx, cfg, obs, m, stats, reduced):
     fails = oracle(obs)
     diffs = correspondence(obs, m)
     rep = {'cfg': cfg, 'sched': obs['sched'], 'labels': obs['labels'], 'model_sched': obs['msched'],
-           'observed': {k: obs[k] for k in ('calls', 'raised', 'swallowed', 'residue', 'overlap', 'disc_packets')},
+           'observed': {k: obs.get(k) for k in ('calls', 'raised', 'swallowed', 'residue', 'overlap', 'disc_packets', 'side')},
            'model': {k: m[k] for k in ('calls', 'raised', 'contained', 'residue', 'serial', 'pcs')},
            'oracle': [f[1] for f in fails], 'correspondence': diffs}
     stats['runs'] += 1
@@ -207,10 +244,10 @@ def outcome_sig(o):
     return json.dumps([o['calls'], o['raised'], o['swallowed'], o['residue'], o['overlap']], sort_keys=True, default=str)
 
 
-def run_configs(ctx, cfgs, stats, indep=None, budget=None):
+def run_configs(ctx, cfgs, stats, indep=None, budget=None, serial_only=False):
     t = T()
     for cfg in cfgs:
-        obs_all = list(t.explore(cfg, indep=indep))
+        obs_all = list(t.explore(cfg, indep=indep, serial_only=serial_only))
         ans = C.batch('sched', [t.model_line(o) for o in obs_all])
         key = cfg_key(cfg, indep is not None)
         stats['per_config'][key] = len(obs_all)
@@ -248,6 +285,8 @@ def run(ctx):
     nfull, nred = nested_configs()
     run_configs(ctx, nfull, stats)
     run_configs(ctx, nred, stats, indep=t.independent)
+    run_configs(ctx, side_configs(ctx.thorough), stats, indep=t.independent, serial_only=True)
+    ctx.coverage['side_action_schedules'] = sum(v for k, v in stats['per_config'].items() if '/side:' in k)
     nested_pairs = stats['runs'] - pairs
     pairs = stats['runs']
     exhaustive3 = None
